@@ -685,6 +685,34 @@ func (c *c09ctx) analyseFunc(fn *ssa.Function) {
 		if com.IsInvoke() {
 			if isReflectType(com.Value.Type()) {
 				name := com.Method.Name()
+				// reflect.TypeOf(x) is the nil Type when x is the nil interface: any method called on it dereferences nil
+				if len(ev.Args) > 0 {
+					if tf, _ := calleeOfSym(ev.Args[0]); isReflectFunc(tf, "TypeOf") {
+						if xs := symArgs(st, ev.Args[0]); len(xs) == 1 {
+							x := xs[0]
+							nonNil := x.K == sMkIface || definitelyNonNil(x) || c.nonNil(st, x)
+							if !nonNil {
+								if eq, known := evalEq(st, x, nilSym()); known && !eq {
+									nonNil = true
+								}
+							}
+							if !nonNil {
+								// a valid reflect.Value was made from it on this path: then it is not the nil interface
+								for _, e2 := range st.events {
+									if e2.Instr != nil && isReflectFunc(e2.Callee, "ValueOf") && len(e2.Args) == 1 && e2.Args[0].Key() == x.Key() && e2.Res != nil {
+										if k := c.ke.kinds(st, e2.Res); k&ks(kInvalid) == 0 {
+											nonNil = true
+										}
+									}
+								}
+							}
+							c.record(ins, "nil-deref", f.Name()+":Type."+name+":of-nil", nonNil, "reflect.Type."+name+" is called on reflect.TypeOf("+shortKey(x)+"), which is the nil Type when that value is the nil interface", st)
+							if !nonNil {
+								return
+							}
+						}
+					}
+				}
 				if typeMethodSafe[name] {
 					return
 				}
